@@ -1,0 +1,17 @@
+//go:build verif
+
+package keystore
+
+import "sync/atomic"
+
+// verifSignCount counts entries into the keystore signing entry points
+// (SignHash, SignHashAllowed, SignHashOK, SignTx, SignHashWithPassphrase,
+// SignTxWithPassphrase). It exists only in builds with the `verif` tag and is
+// read by the verification harness; it has no effect on behaviour.
+var verifSignCount atomic.Uint64
+
+func verifSignHook() { verifSignCount.Add(1) }
+
+// VerifSignCount returns the number of times a keystore signing entry point
+// has been entered since process start.
+func VerifSignCount() uint64 { return verifSignCount.Load() }
